@@ -6,7 +6,9 @@ import (
 	"io"
 	"log"
 	"os"
+	"path/filepath"
 	"sort"
+	"strings"
 
 	"github.com/la5nta/wl2k-go/fbb"
 	"github.com/la5nta/wl2k-go/mailbox"
@@ -109,6 +111,7 @@ func init() {
 			retryHistory(c, sa, sb, clean)
 		}
 		dirMailboxRetry(c)
+		dirMailboxStorageFault(c)
 		c.Compare(cases)
 	})
 }
@@ -174,6 +177,104 @@ func retryHistory(c *Ctx, sa0, sb0 *sessSpec, clean *pairRun) {
 		}
 	}
 	c.Res.Distribution["retry-history"]++
+}
+
+// dirMailboxStorageFault: the receiver is the real directory mailbox and its storage GENUINELY fails (no
+// wrapper injects the error): the temp name of one message is occupied by a non-empty directory, or the
+// inbox directory has been replaced by a regular file. The sender may record as sent only what the
+// receiver's mailbox really holds; after the obstruction is removed one clean session delivers the rest.
+func dirMailboxStorageFault(c *Ctx) {
+	for i := 0; i < c.Budget(4, 30) && c.TimeLeft(); i++ {
+		da, _ := os.MkdirTemp("", "verif-c02-fa")
+		db, _ := os.MkdirTemp("", "verif-c02-fb")
+		ha, hb := mailbox.NewDirHandler(da, false), mailbox.NewDirHandler(db, false)
+		ha.Prepare()
+		hb.Prepare()
+		want := map[string][]byte{}
+		var mids []string
+		n := 1 + c.Rng.Intn(4)
+		for j := 0; j < n; j++ {
+			m := genMessage(c.Rng, "LA5NTA", "N0CALL", 1500)
+			m.Header.Del("Cc")
+			data, _ := m.Bytes()
+			want[m.MID()] = data
+			mids = append(mids, m.MID())
+			ha.AddOut(m)
+		}
+		variant := []string{"temp-name-occupied", "inbox-is-a-file"}[i%2]
+		victim := mids[c.Rng.Intn(len(mids))]
+		inDir := filepath.Join(db, mailbox.DIR_INBOX)
+		obstruction := filepath.Join(inDir, victim+mailbox.Ext+".tmp")
+		switch variant {
+		case "temp-name-occupied":
+			os.MkdirAll(obstruction, 0o755)
+			os.WriteFile(filepath.Join(obstruction, "occupied"), []byte("x"), 0o644)
+		default:
+			os.RemoveAll(inDir)
+			os.WriteFile(inDir, []byte("not a directory"), 0o644)
+		}
+		session := func() (error, error) {
+			ca, cb := newMemPipe(nil, nil)
+			x := fbb.NewSession("LA5NTA", "N0CALL", "", mailbox.NewDirHandler(da, false))
+			y := fbb.NewSession("N0CALL", "LA5NTA", "", mailbox.NewDirHandler(db, false))
+			x.SetLogger(log.New(io.Discard, "", 0))
+			y.SetLogger(log.New(io.Discard, "", 0))
+			y.IsMaster(true)
+			ex, ey := make(chan error, 1), make(chan error, 1)
+			go func() { _, e := x.Exchange(ca); ex <- e }()
+			go func() { _, e := y.Exchange(cb); ey <- e }()
+			return <-ex, <-ey
+		}
+		e1, e2 := session()
+		rep := map[string]interface{}{"variant": variant, "messages": n, "victim": victim, "faulty_session_errors": fmt.Sprint(e1, " / ", e2)}
+		stored := func() map[string]int {
+			got := map[string]int{}
+			ents, _ := os.ReadDir(inDir)
+			for _, e := range ents {
+				if !e.IsDir() && strings.HasSuffix(e.Name(), mailbox.Ext) {
+					b, _ := os.ReadFile(filepath.Join(inDir, e.Name()))
+					m := new(fbb.Message)
+					if m.ReadFrom(bytes.NewReader(b)) == nil {
+						m.Header.Del("X-Unread") // the mailbox's own bookkeeping header
+						m.Header.Del("X-FilePath")
+						data, _ := m.Bytes()
+						if bytes.Equal(data, want[m.MID()]) {
+							got[m.MID()]++
+						}
+					}
+				}
+			}
+			return got
+		}
+		have := stored()
+		sent, _ := ha.Sent()
+		for _, m := range sent {
+			if have[m.MID()] == 0 {
+				c.Violate("C02:dir-sent-but-not-stored:"+variant, fmt.Sprintf("message %s was moved to the sender's sent folder although the receiver's mailbox could not store it (its storage failed)", m.MID()), rep)
+			}
+		}
+		// repair the storage, one clean session
+		switch variant {
+		case "temp-name-occupied":
+			os.RemoveAll(obstruction)
+		default:
+			os.Remove(inDir)
+			os.MkdirAll(inDir, 0o755)
+		}
+		session()
+		have = stored()
+		for _, mid := range mids {
+			if have[mid] != 1 {
+				c.Violate("C02:dir-not-exactly-once:"+variant, fmt.Sprintf("message %s is in the receiver's inbox %d times after a session with failing storage and a clean one", mid, have[mid]), rep)
+			}
+		}
+		if ha.OutboxCount() != 0 || ha.SentCount() != n {
+			c.Violate("C02:dir-not-marked-sent:"+variant, fmt.Sprintf("sender outbox=%d sent=%d after the clean retry, want 0/%d", ha.OutboxCount(), ha.SentCount(), n), rep)
+		}
+		os.RemoveAll(da)
+		os.RemoveAll(db)
+		c.Res.Distribution["dir-mailbox-storage-fault/"+variant]++
+	}
 }
 
 // dirMailboxRetry: the same retry property with the real directory mailbox on both sides.
